@@ -1,10 +1,11 @@
 // govc:pkg .
-// govc:bound 12 aggregate SELECT items (sum, avg, min, max, count(col), count(*), first_value, last_value, collect, expression arguments) x 30 random feeds of 18 rows over 3 groups with NULL and missing inputs, two consecutive batches per group (state must not leak)
+// govc:bound 12 aggregate SELECT items (sum, avg, min, max, count(col), count(*), first_value, last_value, collect, expression arguments) x 30 (thorough: 120) random feeds of 18 rows over 3 groups with NULL and missing inputs, two consecutive batches per group (state must not leak)
 // Bounded stand-in (NOT a proof) for the wiring around the accumulators under contract (NULL skipping and numeric
 // coercion in GroupAggregator.Add, expression arguments evaluated per row, reset between batches, partitioning by key).
 package streamsql
 
 import (
+	"os"
 	"fmt"
 	"math"
 	"math/rand"
@@ -106,7 +107,11 @@ func TestGovcBounded_aggregates_per_group_and_batch(t *testing.T) {
 	rng := rand.New(rand.NewSource(3))
 	cases, fails := 0, 0
 	for _, it := range govcAggItems() {
-		for feed := 0; feed < 30; feed++ {
+		nfeeds := 30
+		if os.Getenv("GOVC_BOUND") == "thorough" {
+			nfeeds = 120
+		}
+		for feed := 0; feed < nfeeds; feed++ {
 			cases++
 			sql := "SELECT g, " + it.sql + " AS f FROM stream GROUP BY g, CountingWindow(3)"
 			s := New()
